@@ -7,10 +7,17 @@ role, close placeholder) share a placeholder and no key has two placeholders
 (`C11_table_injective`); entries are never changed or removed, so an element that is
 identical in two documents receives the same placeholder in both, whatever was processed in
 between (`C11_table_stable`); a placeholder handed out for a new key was never used before
-(`C11_fresh_placeholder`).  Not proved: the round trip `undo_tree ∘ do_tree = id`; it is
-decided per run by the oracle on the real maker and by unit U7 on the model.
+(`C11_fresh_placeholder`).  The round trip for one text element (`Proofs/Undo1.lean` … `Undo6.lean`):
+`undo_element (do_element e)` is `e` again - up to the normal form `normT`: restored inline elements are copies, and an
+empty text or tail is not distinguished from a missing one - on the maker's initial state
+(`C11_roundtrip_element_fresh_maker`) and on every state that satisfies the table and heap invariants
+(`C11_roundtrip_element`), for any nesting of formatting and single elements, repeated and empty ones included.
+Not proved: the round trip of a whole document through `do_tree` / `undo_tree` (text tags nested in text tags go
+through the heap of detached elements); it is decided per run by the oracle on the real maker and by unit U7 on the
+model.
 -/
 import XmlDiffModel.Proofs.Placeholder
+import XmlDiffModel.Proofs.Undo6
 
 namespace XmlDiffModel
 
@@ -36,6 +43,57 @@ theorem C11_fresh_placeholder (st : PhSt) (h : TableOK st) (el : Tree) (r : Role
     (hn : st.lookup (keyOf el) r c = none) :
     ∀ e ∈ st.table, e.ph ≠ (getPlaceholder st el r c).1 :=
   getPlaceholder_fresh st el r c h hn
+
+/-- **Round trip of one text element**, any maker state that satisfies the invariants (one-to-one table, opening entries
+record closing entries, every opening / single entry points to its element on the heap - `TableOK`, `Closed`, `HInv`):
+for an element `e` whose node identities are new to the maker and whose texts and tails contain no character from
+U+E000 on, with formatting and single children nested to any depth, `undo_element` applied to what `do_element` made
+of `e`, in the state `do_element` left, returns an element with the same normal form as `e` - for every sufficiently
+large fuel (the Python functions have none). -/
+theorem C11_roundtrip_element (st : PhSt) (de : List (Nat × Tree)) (e : Tree) (hT : TableOK st) (hC : Closed st)
+    (hH : Undo.HInv st de []) (hn : (Tree.ids e).Nodup)
+    (fheap : ∀ i ∈ Tree.ids e, ∀ h ∈ st.heap, i ∉ Tree.ids h) (fde : ∀ i ∈ Tree.ids e, ∀ p ∈ de, p.1 ≠ i)
+    (fent : ∀ i ∈ Tree.ids e, ∀ x ∈ st.table, x.elemId ≠ i) (hlow : Undo.LowT e)
+    (hb : (doElement e st).2.counter < 0x110000) :
+    ∃ r, Undo.normT r = Undo.normT e ∧ ∃ N, ∀ f, N ≤ f →
+      undoElement f (doElement e st).2 de (doElement e st).1 = .ok (r, []) :=
+  Undo.roundtrip_element st de e hT hC hH hn fheap fde fent hlow hb
+
+/-- The same on a fresh maker (`PlaceholderMaker.__init__`, any text and formatting tags), whose entries point to the
+three `diff:` elements: the only requirements left are on the element. -/
+theorem C11_roundtrip_element_fresh_maker (tt ft : List Str) (e : Tree) (hn : (Tree.ids e).Nodup)
+    (hid : ∀ i ∈ Tree.ids e, i < 900001) (hlow : Undo.LowT e)
+    (hb : (doElement e (phInit tt ft)).2.counter < 0x110000) :
+    ∃ r, Undo.normT r = Undo.normT e ∧ ∃ N, ∀ f, N ≤ f →
+      undoElement f (doElement e (phInit tt ft)).2 diffElemList (doElement e (phInit tt ft)).1 = .ok (r, []) := by
+  obtain ⟨hT, hC⟩ := phInit_ok tt ft
+  refine Undo.roundtrip_element _ diffElemList e hT hC (Undo.phInit_hinv tt ft) hn ?_ ?_ ?_ hlow hb
+  · intro i _ h hh
+    rw [Undo.phInit_heap] at hh
+    cases hh
+  · intro i hi p hp e'
+    have := (Undo.diffElemList_ids p hp).1
+    have := hid i hi
+    omega
+  · intro i hi x hx e'
+    have := (Undo.phInit_elemIds tt ft x hx).1
+    have := hid i hi
+    omega
+
+/-- Non-vacuity of the round trip: a text element with nested, repeated and empty formatting elements and single
+elements meets every hypothesis of `C11_roundtrip_element_fresh_maker` (the restoring functions are defined by
+well-founded recursion and do not reduce in the kernel; the concrete run of this element is part of unit U7). -/
+example :
+    let n (i : Nat) (t : String) (txt tl : Option String) (ks : List Tree) : Tree :=
+      .node i ⟨.elem, t.toList, [], txt.map String.toList, tl.map String.toList⟩ ks
+    let e := n 0 "p" (some "a") none
+      [n 1 "b" (some "x") (some "y") [n 2 "i" none (some "z") [], n 3 "br" none none []],
+       n 4 "b" none none [], n 5 "b" none none [], n 6 "img" none (some "end") []]
+    let st := phInit ["p".toList] ["b".toList, "i".toList]
+    (Tree.ids e).Nodup ∧ (∀ i ∈ Tree.ids e, i < 900001) ∧ (doElement e st).2.counter < 0x110000 ∧ Undo.LowT e := by
+  refine ⟨by decide +kernel, by decide +kernel, by decide +kernel, ?_⟩
+  simp only [Undo.LowT, Undo.LowL, Undo.Low, strOf, Option.map, Option.getD, and_true, true_and]
+  decide
 
 /-- Non-vacuity: a text tag with a formatting child and a plain child. -/
 example :
